@@ -693,10 +693,12 @@ class BuiltinModelLoaderGen(ModelLoaderGen):
             )
             return
 
+        # having ``get`` does not make an object a mapping: lookups that follow rely on ``in`` and ``[]`` without a guard
         with state.builder(
             f"""
             try:
                 getter = {state.parent.v_data}.get
+                {state.parent.v_data}.__getitem__, {state.parent.v_data}.__contains__
             except AttributeError:
             """,
         ):
